@@ -884,6 +884,14 @@ C06_REMOVALS_PART = (G, "gosym_part", dict(name="c06_removals", entry="internal/
                                desc="definitions disappear between versions (down to an EMPTY latest model): the real ValidateEvolution returns a verdict without panicking, mentions every removed "
                                     "protocol and locates every warning in a model file"))
 
+C09_CROSSNS_PART = (G, "gosym_part", dict(name="c09_cross_namespace_cycles", entry="internal/zzverif.C09CrossNamespaceCycle",
+                               required_sites=("validate-terminates-without-panic", "acyclic-definitions-accepted", "cross-namespace-cycle-rejected", "error-names-a-model-file"),
+                               assumptions=["Main imports Dep; Dep names a type of Main (the environment's symbol table holds every namespace, so the name resolves although Dep does not import Main); "
+                                            "back-reference written directly / as optional / vector / map value; the cycle may run through one more record of either namespace",
+                                            "a cycle of records is 'not supported' in the validator's own words: every generator recurses through definitions (accepted, it overflows the stack of `yardl generate`)"],
+                               desc="a reference cycle whose members lie in two namespaces (Main.Foo -> Dep.Bar -> Main.Foo, optionally through one more record): the real dsl.Validate terminates without "
+                                    "panic, rejects the model naming a model file, and accepts the same definitions without the back-reference"))
+
 PARTS = {
     "C08": [
         C08_RESERVED_PART,   # identifiers derived from model names are never C++ / Python reserved words
@@ -912,6 +920,40 @@ PARTS = {
                                     "namespace identifier a module uses is imported there (directly or via a star-imported sibling); in every types.py the dtype registrations are "
                                     "dependencies-first (an eagerly evaluated registration only mentions keys registered by earlier statements)")),
         C08_CHILD_REFS,
+        (G, "gosym_part", dict(name="c08_cpp_package", entry="internal/zzverif.C08CppPackage", args_quick=(0,), args_thorough=(1,),
+                               extra_quick=("-max-steps", "40000000"), extra_thorough=("-max-steps", "40000000", "-max-paths", "100000"),
+                               required_sites=("generation-does-not-panic", "generation-succeeds", "quoted-include-resolves", "no-include-of-a-disabled-format",
+                                               "format-files-written-iff-enabled", "shipped-headers-copied-iff-format-enabled", "cmake-written-iff-enabled",
+                                               "cmake-script-understood", "cmake-sources-exist", "cmake-lists-every-generated-source", "cmake-links-format-library-iff-enabled",
+                                               "cmake-requires-cxx17", "declaration-visible-where-named", "override-header-replaces-default", "override-changes-no-other-include"),
+                               assumptions=["documented options only (docs/cpp/packages.md, arrays.md): generateNDJson, generateHDF5, generateCMakeLists symbolic, overrideArrayHeader unset and set "
+                                            "(every path generates both ways); the undocumented internal options (mocks, translator, symlinked static headers) stay off",
+                                            "model family: Top alone | Top -> Base (types only) | Top -> Mid -> Base, with / without protocols in Top, definitions with / without generics "
+                                            "(record, closed and open alias, imported generic instantiated with local and imported arguments), enum + flags, unions (named and inline, "
+                                            "imported cases), computed fields (arithmetic and reference-returning, through imported records); quick: no / all definition kinds, "
+                                            "thorough: all 16 subsets and two spellings of the override header",
+                                            "embed.FS is an engine model (embed_intrinsics.go): the embedded file systems are read from the package directories of the tree under test, so the "
+                                            "real iocommon.CopyEmbeddedStaticFiles runs (no stub); yardl.h goes through the text/template model of text_intrinsics.go; the native replays run "
+                                            "the real packages",
+                                            "file-level well-formedness only: the output is not compiled; CMake options are evaluated at their declared defaults; a third-party name belongs to "
+                                            "a format if it contains hdf5 / h5 / json"],
+                               desc="the complete real cpp.Generate (yardl.h template, real static-header copy, types, protocols, binary, ndjson, hdf5, CMakeLists) on a virtual file system "
+                                    "for every option x import-shape x definition-kind combination, emitted text read back: every quoted #include of every file of the output tree "
+                                    "resolves inside the tree; format-specific generated and shipped files exist iff the format is enabled and nothing includes a disabled format's file "
+                                    "or third-party header; CMakeLists.txt (read as a script) is written iff enabled, builds exactly the generated .cc files, links and finds the HDF5 / "
+                                    "JSON packages iff enabled and requires C++17; every `ns::Name` of a model namespace used in a generated file is declared above the use, in the "
+                                    "file or in a (transitively) included one; the override array header stands exactly where the default one would be included")),
+        (G, "gosym_part", dict(name="c08_matlab_package", entry="internal/zzverif.C08MatlabPackage", args_quick=(0,), args_thorough=(1,),
+                               extra_quick=("-max-steps", "40000000"), extra_thorough=("-max-steps", "40000000"),
+                               required_sites=("generation-does-not-panic", "generation-succeeds", "file-defines-what-it-is-named-after", "qualified-reference-resolves",
+                                               "one-package-per-namespace"),
+                               assumptions=["matlab has no documented options; internalGenerateMocks / internalSymlinkStaticFiles stay off",
+                                            "model family as c08_cpp_package (quick: no / all definition kinds; thorough: all 16 subsets)",
+                                            "embed.FS is an engine model reading the shipped static files from the package directory of the tree under test (native replays: the real embed)"],
+                               desc="the complete real matlab.Generate (static file copy, types, protocols, binary serializers) on a virtual file system for every import-shape x "
+                                    "definition-kind combination, emitted MATLAB read back: every .m file defines exactly one classdef / function, named like the file; every qualified "
+                                    "name `pkg.sub.Name` in a generated file whose head is a generated package or `yardl` (code and class-name strings) resolves to a file "
+                                    "+pkg/+sub/Name.m written or copied in the same run (dangling names inside the shipped +yardl files are recorded, not asserted)")),
         C08_INIT_PART,   # the scaffold `yardl init <name>` writes for any name it accepts is a package yardl accepts; a refused init leaves nothing behind
     ],
     "C07": [
@@ -1056,8 +1098,9 @@ PARTS = {
                                     "tree with the same resolved primitive and inserted conversions on every node, dsl.IsIntegralType iff the resolved primitive is an integer, and the same emitted "
                                     "operator / conversion / literal forms in Python (`//` vs `/`), C++ and MATLAB")),
     ],
-    "C10": [C06_REMOVALS_PART] + [C10_FORMS[f] for f in (0, 1, 3, 4, 5)] + [only_thorough(C10_FORMS[f]) for f in (2, 6)] + C10_SHAPES + [C10_GRAPH_PART, C10_PARSER_PART, C10_DEFUSE_PART, C10_CYCLE_SPELLINGS_PART, C10_BUDGET_PART] + C10_YAML,  # C10_GRAPH_PART: no hang / panic of the package loader for any import graph
+    "C10": [C06_REMOVALS_PART, C09_CROSSNS_PART] + [C10_FORMS[f] for f in (0, 1, 3, 4, 5)] + [only_thorough(C10_FORMS[f]) for f in (2, 6)] + C10_SHAPES + [C10_GRAPH_PART, C10_PARSER_PART, C10_DEFUSE_PART, C10_CYCLE_SPELLINGS_PART, C10_BUDGET_PART] + C10_YAML,  # C10_GRAPH_PART: no hang / panic of the package loader for any import graph
     "C09": [
+        C09_CROSSNS_PART,
         (G, "gosym_part", dict(name="c09_base", entry="internal/zzverif.C09Base", required_sites=("base-accepted",), assumptions=C09_ASSUME,
                                desc="the unmodified two-namespace base model validates (guards against an over-rejecting harness)")),
         (G, "gosym_part", dict(name="c09_type_rules", entry="internal/zzverif.C09TypeRule", key_fn=c09_key,
